@@ -473,7 +473,8 @@ func c14Instances(add func(*Instance), thorough bool) {
 			if n > 8 {
 				tier = 1
 			}
-			add(&Instance{Func: "VerifC14Bound", Params: P("n", n, "kinds", p), Solvers: sv, Tier: tier})
+			// one linear-arithmetic obligation per instance: give it a generous per-query budget (a loaded machine needs > 15 s)
+			add(&Instance{Func: "VerifC14Bound", Params: P("n", n, "kinds", p), Solvers: sv, Tier: tier, QueryTimeoutMs: 120000})
 		}
 	}
 	// short histories on real bitmaps satisfying I
